@@ -345,6 +345,12 @@ example : interpolate [(0,0),(0,0),(6,8)] [(0,-1),(3,3),(6,7)] [(0,1),(3,5),(3,6
 example : mergeLanelets ⟨1, [], [2], [(0,1),(2,1)], [(0,0),(2,0)], [(0,-1),(2,-1)]⟩
                         ⟨2, [1], [7], [(2,1),(5,1)], [(2,0),(5,0)], [(2,-1),(5,-1)]⟩
     = .ok ⟨12, [], [7], [(0,1),(2,1),(5,1)], [(0,0),(2,0),(5,0)], [(0,-1),(2,-1),(5,-1)]⟩ := by decide +kernel
+-- merge where the predecessor's LEFT boundary pivots on one point (a vertex repeated inside the lanelet, distinct centre and
+-- right vertices): `C20_merge_spec` has no distinctness hypothesis — only the joint vertex is dropped, the pivot stays twice
+example : mergeLanelets ⟨1, [], [2], [(0,2),(2,2),(2,2),(2,4)], [(0,1),(2,1),(3,2),(3,4)], [(0,0),(2,0),(4,2),(4,4)]⟩
+                        ⟨2, [1], [], [(2,4),(2,6)], [(3,4),(3,6)], [(4,4),(4,6)]⟩
+    = .ok ⟨12, [], [], [(0,2),(2,2),(2,2),(2,4),(2,6)], [(0,1),(2,1),(3,2),(3,4),(3,6)], [(0,0),(2,0),(4,2),(4,4),(4,6)]⟩ := by
+  decide +kernel
 
 end CR.Arc
 
